@@ -692,9 +692,4 @@ Proof.
         -- intros Hl. right; right; left. intros Hw. destruct (Gdirty t eq_refl) as [X|X]; auto; try lia. rewrite Hpc. reflexivity.
 Qed.
 
-(* the plain wakeup after a resume is never reached on a serial lane *)
-Lemma step_dead ina rb s t s' : Inv ina s -> dead_pc (pcs s t) = true -> gstep rb s t = Some s' -> Inv ina s'.
-Proof.
-  intros [_ T] Hd _. destruct (T t) as (_ & _ & _ & _ & _ & _ & _ & _ & T9). congruence.
-Qed.
 End StepsB.
